@@ -227,6 +227,31 @@ Example C18_example_child :
      = [((1, 1)%nat, [9%N; 2%N; 6%N]); ((0, 1)%nat, [9%N; 2%N; 1%N; 5%N])].
 Proof. vm_compute. repeat split. Qed.
 
+(* ------------------------------------------------------------------ a sequential tail *)
+(* calls made after all the concurrent ones have returned (the tail: one more goroutine that is
+   scheduled only then) take effect after everything else, in their order: the final logger is
+   the tail applied to the outcome of the parallel part, whose trace is a complete linearisation
+   of the parallel programs.  In particular a SetLevel issued afterwards always wins. *)
+Theorem C18_conc_tail : forall c0 progs tail s1 s2 st1 tr1 st2 tr2,
+  crun (cinit c0 (progs ++ [tail])) s1 = (st1, tr1) -> crun st1 s2 = (st2, tr2) ->
+  (forall t, In t s1 -> (t < length progs)%nat) ->
+  (forall t, (t < length progs)%nat -> cops_of t st1 = []) ->
+  all_returned cop core st2 = true ->
+  untag cop tr2 = tail
+  /\ Permutation (untag cop tr1) (concat progs)
+  /\ (forall t, ops_of cop t tr1 = nth t progs [])
+  /\ abs (snd (m_cell st2)) = fold_left sapply tail (fold_left sapply (untag cop tr1) (abs c0)).
+Proof. exact conc_tail. Qed.
+
+(* non-vacuity: two overlapping SetLevel calls (the first to load loses its CompareAndSwap and
+   retries, so its level ends up on top), then SetLevel to the loser's level once more *)
+Example C18_example_tail :
+  let r := crun (cinit (Base 0 []) ([[CSetLevel 1]; [CSetLevel 2]] ++ [[CSetLevel 2]]))
+                ([0; 1; 1; 0; 0; 0] ++ [2; 2])%nat in
+  all_returned cop core (fst r) = true /\ clevel (snd (m_cell (fst r))) = 2
+  /\ clevel (snd (m_cell (fst (crun (cinit (Base 0 []) [[CSetLevel 1]; [CSetLevel 2]; []]) [0; 1; 1; 0; 0; 0]%nat)))) = 1.
+Proof. vm_compute. repeat split. Qed.
+
 (* ------------------------------------------------------------------ the tie to the source *)
 (* ./check C18 regenerates from log/context_utils.go the control-flow graphs of the atomic
    operations of WithFields / SetLevel / ChildLogger (Base/LogConcCfg.v) and evaluates
@@ -334,6 +359,19 @@ Theorem C18_judge_final_ok_sound : forall c0 progs sched st tr final,
   final_ok c0 progs final = true.
 Proof. exact final_ok_sound. Qed.
 
+(* with a sequential tail the judge applies [final_ok_tail]: initial fields, a permutation of
+   the parallel part's fields (each goroutine's in its order), then the tail's fields in order;
+   the level of the tail's last SetLevel if it has one - also a consequence of the theorems *)
+Theorem C18_judge_final_ok_tail_sound : forall c0 progs tail s1 s2 st1 tr1 st2 tr2 final,
+  crun (cinit c0 (progs ++ [tail])) s1 = (st1, tr1) -> crun st1 s2 = (st2, tr2) ->
+  (forall t, In t s1 -> (t < length progs)%nat) ->
+  (forall t, (t < length progs)%nat -> cops_of t st1 = []) ->
+  all_returned cop core st2 = true ->
+  clevel c0 <= 2 -> (forall p l, In p (progs ++ [tail]) -> In (CSetLevel l) p -> l <= 2) ->
+  expand final = probe (snd (m_cell st2)) ->
+  final_ok_tail c0 progs tail final = true.
+Proof. exact final_ok_tail_sound. Qed.
+
 (* the same for the children: every child the model creates, under any schedule, passes
    [children_ok] (initial fields, a sub-multiset of the added fields that contains everything
    its own goroutine added before, then its own fields; an admissible level) *)
@@ -391,6 +429,8 @@ Print Assumptions C18_conc_progress_solo.
 Print Assumptions C18_conc_progress_failed_cas.
 Print Assumptions C18_judge_final_ok_sound.
 Print Assumptions C18_judge_children_ok_sound.
+Print Assumptions C18_judge_final_ok_tail_sound.
+Print Assumptions C18_conc_tail.
 Print Assumptions C18_wrapper_enabled.
 Print Assumptions C18_wrapper_check.
 Print Assumptions C18_wrapper_write_sync.
